@@ -17,25 +17,12 @@ Section Bridge.
   Variable o : task.
   Hypothesis Hout : output_tasks g = [o].
   Hypothesis Hfresh : g_keys_fresh g ids = true.
-  Hypothesis Hnokey : g_static_nokey g ids = true.
-  Hypothesis Hnocall : g_static_nocall g = true.
 
   Lemma wf_keys_eq : wf_keys g ids = map (key_of ids o) (nodes g).
   Proof. unfold wf_keys. rewrite Hout. reflexivity. Qed.
 
   Lemma bridge_fresh : NoDup (map (key_of ids o) (nodes g)).
   Proof. rewrite <- wf_keys_eq. apply nodupp_spec. exact Hfresh. Qed.
-
-  Lemma bridge_safe : forall t a, In t (nodes g) -> In a (tinputs t) ->
-    has_key_string (map (key_of ids o) (nodes g)) a = false /\ has_call_tuple a = false.
-  Proof.
-    intros t a Ht Ha. split.
-    - unfold g_static_nokey in Hnokey. rewrite forallb_forall in Hnokey. specialize (Hnokey t Ht).
-      rewrite forallb_forall in Hnokey. specialize (Hnokey a Ha). rewrite wf_keys_eq in Hnokey.
-      apply negb_true_iff in Hnokey. exact Hnokey.
-    - unfold g_static_nocall in Hnocall. rewrite forallb_forall in Hnocall. specialize (Hnocall t Ht).
-      rewrite forallb_forall in Hnocall. specialize (Hnocall a Ha). apply negb_true_iff in Hnocall. exact Hnocall.
-  Qed.
 
   Lemma key_sink : key_of ids o o = results.
   Proof. unfold key_of. assert (E : task_eqb o o = true) by (apply task_eqb_spec; reflexivity). rewrite E. reflexivity. Qed.
@@ -122,25 +109,25 @@ Section Exec.
   (* ---- soundness of the generated dict -------------------------------------------------------- *)
   Lemma dask_dict_sound_lemma g ids d o order rc sched dc t :
     output_tasks g = [o] -> as_dask_dict g ids = Some d ->
-    g_keys_fresh g ids = true -> g_static_nokey g ids = true -> g_static_nocall g = true ->
+    g_keys_fresh g ids = true ->
     topo_eval apply g order = Some rc -> incl order (nodes g) -> In t order ->
     dask_run apply d sched = Some dc -> In (key_of ids o t) sched ->
     dget dc (key_of ids o t) = (rget rc t, [(tfun t, ref_args g (rget rc) t)]).
   Proof.
-    intros Hout Hd Hf Hk Hc Hr Hi Ht Hrun Hs.
+    intros Hout Hd Hf Hr Hi Ht Hrun Hs.
     rewrite (as_dask_dict_eq g ids o Hout) in Hd. inversion Hd. subst d.
     exact (sound_any_schedule apply g ids o (bridge_fresh g ids o Hout Hf)
-             (bridge_safe g ids o Hout Hk Hc) order rc sched dc t Hr Hi Ht Hrun Hs).
+             order rc sched dc t Hr Hi Ht Hrun Hs).
   Qed.
 
   Lemma dask_results_sound_lemma g ids d o order rc sched dc :
     output_tasks g = [o] -> as_dask_dict g ids = Some d ->
-    g_keys_fresh g ids = true -> g_static_nokey g ids = true -> g_static_nocall g = true ->
+    g_keys_fresh g ids = true ->
     topo_eval apply g order = Some rc -> incl order (nodes g) -> In o order ->
     dask_run apply d sched = Some dc -> In results sched ->
     fst (dget dc results) = rget rc o.
   Proof.
-    intros Hout Hd Hf Hk Hc Hr Hi Ho Hrun Hs.
+    intros Hout Hd Hf Hr Hi Ho Hrun Hs.
     rewrite <- (key_sink ids o) in *.
     rewrite (dask_dict_sound_lemma g ids d o order rc sched dc o); try assumption. reflexivity.
   Qed.
@@ -156,13 +143,13 @@ Section Exec.
 
   Lemma exactly_once_lemma g ids d o order rc sched dc :
     output_tasks g = [o] -> as_dask_dict g ids = Some d ->
-    g_keys_fresh g ids = true -> g_static_nokey g ids = true -> g_static_nocall g = true ->
+    g_keys_fresh g ids = true ->
     topo_eval apply g order = Some rc -> (forall t, In t order <-> In t (nodes g)) ->
     dask_run apply d sched = Some dc -> (forall k, In k sched <-> In k (dkeys d)) ->
     NoDup sched /\
     Permutation (call_log dc) (map (fun t => (tfun t, ref_args g (rget rc) t)) (nodes g)).
   Proof.
-    intros Hout Hd Hf Hk Hc Hr Hcov Hrun Hs.
+    intros Hout Hd Hf Hr Hcov Hrun Hs.
     pose proof (dask_run_valid apply _ _ _ Hrun) as V. pose proof (dask_run_done apply _ _ _ Hrun) as D.
     assert (Nd : NoDup sched) by (rewrite <- D; eapply valid_nodup; exact V).
     split; [exact Nd|].
@@ -193,11 +180,11 @@ Section Exec.
 
   Lemma dask_get_sound_lemma g ids d o :
     output_tasks g = [o] -> as_dask_dict g ids = Some d ->
-    g_keys_fresh g ids = true -> g_static_nokey g ids = true -> g_static_nocall g = true ->
+    g_keys_fresh g ids = true ->
     length (topo_order g) = length (nodes g) ->
     exists v, ref_get apply g = ROk v /\ dask_get apply d results = ROk v.
   Proof.
-    intros Hout Hd Hf Hk Hc Hlen.
+    intros Hout Hd Hf Hlen.
     pose proof (bridge_fresh g ids o Hout Hf) as NK.
     pose proof (NoDup_map_inv' _ _ NK) as NN.
     assert (Ed : d = the_dsk g ids o).
@@ -212,7 +199,7 @@ Section Exec.
     assert (Cov : forall t, In t (topo_order g) <-> In t (nodes g)).
     { intros t. split; [apply Io|]. apply NoDup_length_incl; [exact No | lia | exact Io]. }
     (* mirrored dask trace *)
-    destruct (sim_topo apply g ids o NK (bridge_safe g ids o Hout Hk Hc) (topo_order g) rc Hrc Io) as [dc0 [Hd0 [S1 _]]].
+    destruct (sim_topo apply g ids o NK (topo_order g) rc Hrc Io) as [dc0 [Hd0 [S1 _]]].
     rewrite <- Ed in Hd0.
     pose proof (dask_run_valid apply _ _ _ Hd0) as V0.
     pose proof (topo_eval_done apply _ _ _ Hrc) as DR.
@@ -251,13 +238,13 @@ Section Exec.
   Lemma execute_sound_lemma g ctx next ids o :
     let p := exec_prepare g ctx next in
     output_tasks p = [o] ->
-    g_keys_fresh p ids = true -> g_static_nokey p ids = true -> g_static_nocall p = true ->
+    g_keys_fresh p ids = true ->
     length (topo_order p) = length (nodes p) ->
     exists v, ref_get apply p = ROk v /\ execute apply g ctx next ids = ROk v.
   Proof.
-    intros p Hout Hf Hk Hc Hl.
+    intros p Hout Hf Hl.
     destruct (as_dask_dict p ids) as [d|] eqn:Ed.
-    - destruct (dask_get_sound_lemma p ids d o Hout Ed Hf Hk Hc Hl) as [v [H1 H2]].
+    - destruct (dask_get_sound_lemma p ids d o Hout Ed Hf Hl) as [v [H1 H2]].
       exists v. split; [exact H1|]. unfold execute, execute_log. fold p. rewrite Ed. exact H2.
     - unfold as_dask_dict in Ed. rewrite Hout in Ed. discriminate.
   Qed.
